@@ -44,7 +44,7 @@ def scenarios(tier, seed):
                         continue
                     sc = gen.with_tol(gen.base(m, a, b2, abs(b2 - a) / 8.0, problem=prob, y0=y0, dense=True))
                     if sc.get("rtol") and prob in ("rat", "tdep"):
-                        sc["rtol"] = sc["atol"] = 1e-8
+                        sc["rtol"] = sc["atol"] = max(1e-8, gen.tol_floor(m))     # tight so that the Hermite term dominates, bounded per method
                     Q = lambda f: a + (b2 - a) * f      # noqa
                     if hist == 0:
                         sc["ops"] = [{"op": "integrate"}]
